@@ -1,4 +1,5 @@
 import TracklibVerif.Model.Split
+import TracklibVerif.Model.SplitVal
 import TracklibVerif.Drv.Util
 /-! Driver handler for C11. Commands:
   split <markers as 0/1 string>   → `<pieces> <ids>`: pieces as lists of observation indices, `;`-separated
@@ -21,6 +22,13 @@ import TracklibVerif.Drv.Util
                                     a table is `name=v,v,…;name=v,…`
   segseq <size> <virtual columns> <feature table> (<mode> <afs> <out> <thresholds>)+
                                   → the same after several successive calls on the same track (first error aborts)
+  markerv / segsplitv             → the same two on the operator-call model (`markersG` at `Val`):
+                                    a value or threshold may also be an `ObsTime`, written `@y.m.d.h.mi.s.ms`;
+                                    `err:attr` = the `AttributeError` of comparing an `ObsTime` with a number
+  segseqv <x y z columns> <timestamps> <feature table> (<mode> <afs> <out> <thresholds>)+
+                                  → `segseq` on the operator-call model (`segTrackG` at `Val`); the track is given by
+                                    its coordinates, timestamps and feature table, the columns of the built-in names
+                                    `t`, `timestamp`, `idx` being computed here (`FTrack.ofObs`)
 Values and thresholds are exact: a rational `p/q`, `inf`, `-inf`, and `nan` for a value. -/
 namespace TV.Drv.C11
 open TV.Split TV.Drv
@@ -92,6 +100,64 @@ def segSeq (t : FTrack Ext) : List String → Option (Except String (FTrack Ext)
     | _, _ => none
   | _ => none
 
+/-! ### values that may be timestamps -/
+def stamp? (s : String) : Option TV.ObsTime.Stamp :=
+  match (splitTok s '.').mapM String.toNat? with
+  | some [y, mo, d, h, mi, sc, ms] => some ⟨⟨y, mo, d, h, mi, sc⟩, ms⟩
+  | _ => none
+def valv? (s : String) : Option Val :=
+  if s.startsWith "@" then (stamp? (s.drop 1).toString).map Val.time else (ext? s).map Val.num
+def cellv? (s : String) : Option (Option Val) := if s == "nan" then some none else (valv? s).map some
+def valvList? (s : String) : Option (List Val) := (splitTok s ',').mapM valv?
+def showCellV : Option Val → String
+  | none => "nan"
+  | some (.num x) => showVal (some x)
+  | some (.time t) => s!"@{t.d.year}.{t.d.month}.{t.d.day}.{t.d.hour}.{t.d.min}.{t.d.sec}.{t.ms}"
+def rowsv? (rows : String) : Option (List (List (Option Val))) :=
+  (splitTok rows ';').mapM (fun r => (splitTok r ',').mapM cellv?)
+def tablev? (s : String) : Option (List (String × Col Val)) :=
+  (splitTok s ';').mapM (fun e =>
+    match e.splitOn "=" with
+    | [nm, vs] => ((splitTok vs ',').mapM cellv?).map (fun c => (nm, c))
+    | _ => none)
+def showTableV (t : List (String × Col Val)) : String :=
+  joinWith ";" (t.map (fun p => p.1 ++ "=" ++ joinWith "," (p.2.map showCellV)))
+
+/-- exact value of a finite double -/
+def floatExt (f : Float) : Option Val :=
+  if f.isNaN then none
+  else if f.isInf then some (.num (if f > 0 then .pinf else .ninf))
+  else
+    let b := f.toBits.toNat
+    let neg := b >>> 63 == 1
+    let e := (b >>> 52) % 2048
+    let m := b % 2 ^ 52
+    let mant : Nat := if e == 0 then m else m + 2 ^ 52
+    let ex : Int := (if e == 0 then 1 else (e : Int)) - 1075
+    let mag : Rat := if ex ≥ 0 then ((mant * 2 ^ ex.toNat : Nat) : Rat) else (mant : Rat) / ((2 ^ (-ex).toNat : Nat) : Rat)
+    some (.num (.fin (if neg then -mag else mag)))
+
+/-- `ObsTime.toAbsTime()`: the integer `seconds` of the loops (`toAbsSec`), then `seconds += self.ms / 1000.0` in doubles -/
+def absTimeF (s : TV.ObsTime.Stamp) : Option Val :=
+  floatExt (Float.ofNat (TV.ObsTime.toAbsSec s.d) + Float.ofNat s.ms / 1000.0)
+
+def stampList? (s : String) : Option (List TV.ObsTime.Stamp) :=
+  (splitTok s ',').mapM (fun x => if x.startsWith "@" then stamp? (x.drop 1).toString else none)
+
+/-- successive `segmentation()` calls on one track, operator-call model; `none` = malformed request -/
+def segSeqV (t : FTrack Val) : List String → Option (Except String (FTrack Val))
+  | [] => some (.ok t)
+  | mode :: afs :: out :: ths :: rest =>
+    match arg? some afs, arg? valv? ths with
+    | some a, some th =>
+      if mode == "and" || mode == "or" then
+        match segTrackG Val.isnan Val.le? Val.fmax (mode == "and") t a out th with
+        | .ok t' => segSeqV t' rest
+        | .error e => some (.error e)
+      else none
+    | _, _ => none
+  | _ => none
+
 /-- numbers the observations through the whole collection and splits every track -/
 def collPieces (tracks : List (List Bool)) : List (List Nat) :=
   let offs := tracks.foldl (fun (acc : List Nat × Nat) t => (acc.1 ++ [acc.2], acc.2 + t.length)) ([], 0)
@@ -143,6 +209,15 @@ def handle (cmd : String) (args : List String) : String :=
       | some (.error e) => "err:" ++ e
       | none => "bad-request"
     | _, _, _ => "bad-request"
+  | "segseqv", xyz :: stamps :: feats :: calls =>
+    match tablev? xyz, stampList? stamps, tablev? feats with
+    | some v, some st, some f =>
+      if calls.isEmpty then "bad-request" else
+      match segSeqV (FTrack.ofObs absTimeF v st f) calls with
+      | some (.ok t) => showTableV t.feats
+      | some (.error e) => "err:" ++ e
+      | none => "bad-request"
+    | _, _, _ => "bad-request"
   | "segtrack", [mode, afs, out, ths, size, virt, feats] =>
     match arg? some afs, arg? ext? ths, size.toNat?, table? virt, table? feats with
     | some a, some th, some n, some v, some f =>
@@ -153,6 +228,16 @@ def handle (cmd : String) (args : List String) : String :=
       else "bad-request"
     | _, _, _, _, _ => "bad-request"
   | c, [mode, ths, rows] =>
+    if c == "markerv" || c == "segsplitv" then
+      match valvList? ths, rowsv? rows with
+      | some th, some rs =>
+        if mode == "and" || mode == "or" then
+          match markersG Val.isnan Val.le? Val.fmax (mode == "and") th rs with
+          | .ok bs => if c == "markerv" then showMarks bs else s!"{showMarks bs} {showPieces (splitIdx0 bs)}"
+          | .error e => "err:" ++ e
+        else "bad-request"
+      | _, _ => "bad-request"
+    else
     if c != "marker" && c != "segsplit" then "bad-request" else
     match extList? ths, rows? rows with
     | some th, some rs =>
